@@ -713,6 +713,13 @@ class XlsxRowWriter(AbstractRowWriter):
             self.location.advance_cell()
         self.location.advance_line()
 
+    def write_rows(self, rows_to_write):
+        assert self.workbook is not None
+        assert rows_to_write is not None
+
+        for row_to_write in rows_to_write:
+            self.write_row(row_to_write)
+
     def close(self):
         """
         Close :py:attr:`~.workbook` and physically write it to
